@@ -4,6 +4,7 @@ CONSTANTS
   Reserved = {"meta.refinery.reason"}
   KeyFields = {"svc", "nested"}
   TsNames = {"svc", "nested"}
+  TsPaths = {"msgp", "metaonly", "umsg"}
   ClientNames = {"svc", "nested", "trace.trace_id", "bin.key", "meta.refinery.reason", "app.extra"}
   Settable = {"meta.refinery.reason", "app.extra", "svc"}
   SetVals = {"s1", "s2"}
